@@ -232,7 +232,7 @@ def oracle(ctx: Ctx, sc: dict, tr: dict) -> dict:
                 return getattr(ctx, name)
 
             def oracle_fail(self, what: str, replay: Any, signature: dict | None = None) -> None:
-                if signature in (SIG_F1, SIG_F2, SIG_F3, SIG_F4, SIG_F5):
+                if signature in (SIG_F2, SIG_F3, SIG_F4, SIG_F5):
                     real_fail(what, replay, signature)
                 else:
                     real_fail(what + " [after a write computed for the deleted predecessor landed on this object]",
